@@ -694,6 +694,18 @@ let mon_c13 (r : runres) =
          | Some _ -> if i rr = einval && faults_of r = [] && not (List.exists (fun e -> ret e = -1 && i e.e_errno = 22) evs)
                         && List.for_all (fun (rd : redirect) -> i rd.rd_type >= 0 && i rd.rd_type <= 7) [ o.o_in; o.o_out; o.o_err ] then
              fail "C13/rejected-valid/start" "start rejected documented-valid options")
+      | (ORun (argv, o, _), RInt rr | ORunEx (argv, o, _, _, _), RDrain (rr, _)) ->
+        (* run hands the caller's options to start: `run` only adds the parent shorthand when no other
+           shorthand is set, it never removes or overrides one, so every conflict is still rejected
+           up front *)
+        let o' = match st.s_op with
+          | ORun _ when not o.o_discard && i o.o_file = 0 && o.o_path = None -> { o with o_parent = true }
+          | _ -> o in
+        if parse_options o' (argv_form argv) = None then begin
+          if i rr <> einval then fail "C13/accepted-invalid/run" (Printf.sprintf "run with conflicting options returned %d" (i rr));
+          let res = List.filter (fun e -> by main e && List.mem e.e_call [ CPipe; COpen; CFork ]) evs in
+          if res <> [] then fail "C13/side-effect-before-reject" (Printf.sprintf "%s called before the options were rejected" (Show.call_name (List.hd res).e_call))
+        end
       | _ -> ()))
 
 (* C07: stop sequences *)
